@@ -2,8 +2,6 @@ package proofdb
 
 import (
 	"bytes"
-	"fmt"
-	"os"
 	"sort"
 
 	"github.com/ChainSafe/gossamer/dot/rpc/modules"
@@ -76,9 +74,6 @@ func hasLong(m *su.RefMap) bool {
 
 func runProof(k *kernel.K) {
 	quiet()
-	if os.Getenv("VERIF_PROOFDB_TRACE") == "runs" {
-		fmt.Fprintf(os.Stderr, "RUN %d\n", k.RunIx)
-	}
 	s := &psim{k: k, g: &gen{k: k}, disk: simdisk.NewDisk()}
 	s.absentInRequest = knob(k, 1, 5, "absent-keys-in-request")
 	s.hashedComplete = knob(k, 1, 4, "hashed-values-on-clean-channel")
@@ -135,9 +130,6 @@ func (s *psim) build() {
 	nops := k.Range(1, 14, "ops")
 	for i := 0; i < nops; i++ {
 		ks := m.Keys()
-		if os.Getenv("VERIF_PROOFDB_TRACE") == "1" {
-			fmt.Fprintf(os.Stderr, "TRACE build op %d of %d base s%d ver %d keys=%d\n", i, nops, b.id, ver, len(ks))
-		}
 		switch a := k.Choose(8, "op"); {
 		case a <= 4 || len(ks) == 0: // put (new key or overwrite via key reuse)
 			key, val := s.g.key(), s.g.val()
@@ -186,6 +178,14 @@ func (s *psim) harvest() {
 	for _, key := range ks {
 		s.pool = append(s.pool, cp(raw[key]))
 	}
+}
+
+// poolNode picks one stored byte string (a copy); an empty disk has none.
+func (s *psim) poolNode(label string) []byte {
+	if len(s.pool) == 0 {
+		return []byte{0x41, 0x00}
+	}
+	return cp(s.pool[s.k.Choose(len(s.pool), label)])
 }
 
 func (s *psim) generate(x *pst, keys [][]byte, viaRPC bool) ([][]byte, error) {
@@ -325,9 +325,6 @@ func (s *psim) request() {
 	}
 	k.Event("request", "s%d (v%d, %d keys stored) keys=%d mode=%d rpc=%v absent=%v", x.id, x.ver, x.model.Len(), len(keys), mode, viaRPC, hasAbsent)
 
-	if os.Getenv("VERIF_PROOFDB_TRACE") == "1" {
-		fmt.Fprintf(os.Stderr, "TRACE generate s%d keys=%x\n", x.id, keys)
-	}
 	nodes, err := s.generate(x, keys, viaRPC)
 	if err != nil {
 		if hasAbsent {
@@ -369,7 +366,7 @@ func (s *psim) request() {
 			enc = enc[:k.Choose(len(enc), "wire-cut")]
 			k.Fault("wire-truncated")
 		default:
-			enc = append(enc, s.pool[k.Choose(len(s.pool), "wire-splice")]...)
+			enc = append(enc, s.poolNode("wire-splice")...)
 			k.Fault("wire-splice")
 		}
 	}
@@ -504,12 +501,6 @@ func (s *psim) falseClaim(x *pst, keys [][]byte) (claim, bool) {
 // verify runs the real verifier on one claim and applies both oracles.
 func (s *psim) verify(x *pst, nodes [][]byte, c claim, clean bool) {
 	k := s.k
-	if os.Getenv("VERIF_PROOFDB_TRACE") == "1" {
-		fmt.Fprintf(os.Stderr, "TRACE verify %s key=%x val=%x root=%x nodes=%d\n", c.kind, c.key, c.val, x.root[:], len(nodes))
-		for _, n := range nodes {
-			fmt.Fprintf(os.Stderr, "   node %x\n", n)
-		}
-	}
 	err := proof.Verify(nodes, x.root[:], c.key, c.val)
 	real, present := x.model.Get(c.key)
 	truth := present && (len(c.val) == 0 || bytes.Equal(c.val, real))
@@ -531,9 +522,15 @@ func (s *psim) verify(x *pst, nodes [][]byte, c claim, clean bool) {
 	}
 	if !truth {
 		k.Probe("false-claim-rejected")
+		if !present {
+			k.Probe("absent-key-claim-rejected")
+		}
 		return
 	}
 	hashed := x.ver == su.V1 && len(real) > 32
+	if clean && c.requested && hashed {
+		k.Probe("v1-hashed-value-requested-on-fault-free-channel")
+	}
 	if clean && c.requested {
 		// completeness: honest prover, fault-free channel, requested present key
 		if err != nil {
@@ -596,7 +593,7 @@ func (s *psim) channelFaults(nodes [][]byte) [][]byte {
 			}
 		case 3:
 			j := k.Choose(len(out), "foreign-ix")
-			out[j] = cp(s.pool[k.Choose(len(s.pool), "foreign-node")])
+			out[j] = s.poolNode("foreign-node")
 			k.Fault("node-replaced-by-foreign-node")
 			k.Probe("foreign-node-substitution")
 		case 4:
@@ -610,7 +607,7 @@ func (s *psim) channelFaults(nodes [][]byte) [][]byte {
 			out[j] = out[j][:k.Choose(len(out[j])+1, "cut-len")]
 			k.Fault("node-truncated")
 		case 6:
-			out = append(out, cp(s.pool[k.Choose(len(s.pool), "foreign-node")]))
+			out = append(out, s.poolNode("foreign-node"))
 			k.Fault("foreign-node-added")
 			k.Probe("foreign-node-substitution")
 		default:
@@ -725,4 +722,3 @@ func (s *psim) byzantine(x *pst, keys [][]byte, honest [][]byte) ([][]byte, []cl
 	}
 }
 
-var _ = fmt.Sprintf
